@@ -78,6 +78,7 @@ static void work(long lo, long hi, struct res *r, void *arg) {
 /* path independence: the same abstract seed reached through load, create(+crypt), decode from every language, crypt twice */
 static void work_path(long lo, long hi, struct res *r, void *arg) {
     (void)arg;
+    E.alloc_recycle = 1;      /* every new block starts with what the last released block of its size held (here: a wiped seed and whatever was written after the wipe) */
     for (long x = lo; x < hi; x++) {
         uint64_t ps = 0x9A7 + (uint64_t)x * 31 + (uint64_t)G_seed;
         rseed s; for (int i = 0; i < 19; i++) s.secret[i] = (uint8_t)prng(&ps); s.secret[18] &= 0x3F; s.birthday = (x % 3 == 0) ? 512 + (prng(&ps) & 511) : (prng(&ps) & 1023); s.features = prng(&ps) & 23;
@@ -140,6 +141,11 @@ static void work_path(long lo, long hi, struct res *r, void *arg) {
             else { res_viol(r, "c04:path-create-high", rep, "create(%#x) failed although the three low bits are enabled", arg); bad = 1; }
             memcpy(E.tape[0], kt, 32); E.clock[0] = kc;
         }
+        /* another dependency table injected while this seed is alive: the very next derivation goes through the new table's KDF */
+        if (!bad) { inject(1); env_clear_log(); uint8_t kb2[32]; polyseed_keygen(d0, (polyseed_coin)coin, 32, kb2); r->calls++; r->cases++;
+            uint8_t salt2[32]; ref_keygen_salt(&s, coin, salt2);
+            if (E.n_kdf != 1 || E.kdf.table != 1 || E.kdf.saltlen != 32 || memcmp(E.kdf.salt, salt2, 32)) { res_viol(r, "c04:path-reinjected", rep, "after polyseed_inject of a second table with a seed alive, keygen made %lu KDF call(s), the last through table %c (expected exactly one through table B), salt %s", E.n_kdf, 'A' + E.kdf.table, E.kdf.saltlen == 32 && !memcmp(E.kdf.salt, salt2, 32) ? "ok" : "differs"); bad = 1; }
+            inject(0); polyseed_enable_features(7); }
         polyseed_free(d0);
         if (!bad) r->cls[2]++;
     }
